@@ -7,6 +7,8 @@ property, and the header-witness predicate that the harness evaluates on every r
 (peptide, entry) pair implies realizability — so a real output whose entries pass the
 Lean witness check is sound even on inputs too large to enumerate haplotypes.
 The retry loop of `caller_reducer` only lowers limits (Props.C07 `reducer_*`).
+Layer G: the language of the position automaton of the transcript variant graph is exactly
+the language of the definition (`tvg_walk_iff`, `tvg_language_eq`, `tvgLang_is_automaton`).
 Whether the real graph algorithm only emits members of the set is decided per input by
 `harness/c02.py`.
 -/
@@ -123,5 +125,108 @@ example : (haplotypes
       endNF := false, sec := [] }
     [{ start := 3, stop := 4, ref := ['G'], alt := ['T'], cls := .snv, ids := [0] }]).length = 1 := by
   decide
+
+/-! ## Layer G — the automaton's language IS the definition's language (CP1, both directions) -/
+
+open MoPepGen.Graph in
+/-- CP1 with the combination exposed: the position automaton has a walk taking exactly the
+records `h` and emitting `w` iff `h` is a compatible combination of the definition (or empty:
+the reference walk) and `w` is the transcript carrying it.  Hypothesis = what
+`create_variant_graph`'s filter guarantees: records lie inside the transcript behind its first
+base and have non-empty reference spans. -/
+theorem tvg_walk_iff (t : TxIn) (vs : List Var) (w : List Char) (h : List Var)
+    (hwf : ∀ v ∈ recordPool t vs, 0 < v.start ∧ v.start < v.stop ∧ v.stop ≤ t.seq.length) :
+    Walk t.seq (recordPool t vs) 0 false w h ↔ h ∈ allHaps t vs ∧ w = applyHap t.seq h := by
+  have hpos : ∀ v ∈ recordPool t vs, v.start ≤ v.stop := fun v hv => Nat.le_of_lt (hwf v hv).2.1
+  constructor
+  · intro hw
+    obtain ⟨hmem, hsep, rfl⟩ := tvg_automaton_sound t.seq (recordPool t vs) w h hw
+    refine ⟨?_, rfl⟩
+    cases h with
+    | nil => exact List.mem_cons_self
+    | cons a rest =>
+      exact List.mem_cons_of_mem _
+        ((mem_haplotypes_iff t vs (a :: rest) hpos).mpr ⟨by simp, hsep, hmem⟩)
+  · rintro ⟨hh, rfl⟩
+    rcases List.mem_cons.mp hh with rfl | hh
+    · have := walk_complete t.seq (recordPool t vs) t.seq.length 0 false [] (by omega)
+        (by simp) trivial (by simp)
+      simpa [applyHap] using this
+    · exact tvg_automaton_complete t vs h hh hwf
+
+open MoPepGen.Graph in
+/-- CP1 as an equality of languages.  For a record pool whose records lie inside the transcript
+behind its first base and have non-empty reference spans (what `create_variant_graph`'s filter
+guarantees), the sequences accepted by the position automaton that `apply_variant` builds are
+EXACTLY the sequences of the definition: the transcript carrying some compatible combination
+of the pool (`haplotypes`, an executable enumeration), or no record at all (the reference
+walk).  The right-hand side is the sequence component of `tvgLang t vs 0`
+(`Props.C01.tvgLang_frame`), i.e. what the `G` stream compares the dumped graph with. -/
+theorem tvg_language_eq (t : TxIn) (vs : List Var) (w : List Char)
+    (hwf : ∀ v ∈ recordPool t vs, 0 < v.start ∧ v.start < v.stop ∧ v.stop ≤ t.seq.length) :
+    (∃ h, Walk t.seq (recordPool t vs) 0 false w h) ↔
+      w ∈ (allHaps t vs).map (applyHap t.seq) := by
+  simp only [tvg_walk_iff t vs w _ hwf, List.mem_map]
+  constructor
+  · rintro ⟨h, hh, rfl⟩; exact ⟨h, hh, rfl⟩
+  · rintro ⟨h, hh, rfl⟩; exact ⟨h, hh, rfl⟩
+
+open MoPepGen.Graph in
+/-- CP1 as an equality of languages, minimal hypotheses: `0 < v.start` is not an assumption —
+every pool record starts behind the start codon (`Props.C01.recordPool_behind_start_codon`).
+What remains is: non-empty reference span, inside the transcript. -/
+theorem tvg_language_eq_of_spans (t : TxIn) (vs : List Var) (w : List Char)
+    (hwf : ∀ v ∈ recordPool t vs, v.start < v.stop ∧ v.stop ≤ t.seq.length) :
+    (∃ h, Walk t.seq (recordPool t vs) 0 false w h) ↔
+      w ∈ (allHaps t vs).map (applyHap t.seq) :=
+  tvg_language_eq t vs w fun v hv =>
+    ⟨Nat.lt_of_lt_of_le (by decide) (recordPool_behind_start_codon t vs v hv).2, hwf v hv⟩
+
+open MoPepGen.Graph in
+/-- CP1's right-hand side, labels included, IS the automaton: a (sequence, record ids) pair is
+in `tvgLang t vs f` — what the `G` stream compares the dumped frame-`f` graph with — iff some
+walk of the position automaton emits a sequence whose cut at `f` is that sequence while
+taking records with exactly those ids. -/
+theorem tvgLang_is_automaton (t : TxIn) (vs : List Var) (f : Nat) (s : List Char) (ids : List Nat)
+    (hwf : ∀ v ∈ recordPool t vs, v.start < v.stop ∧ v.stop ≤ t.seq.length) :
+    (s, ids) ∈ tvgLang t vs f ↔
+      ∃ w h, Walk t.seq (recordPool t vs) 0 false w h ∧ s = w.drop f ∧ ids = hapIds h := by
+  have hwf' : ∀ v ∈ recordPool t vs, 0 < v.start ∧ v.start < v.stop ∧ v.stop ≤ t.seq.length :=
+    fun v hv => ⟨Nat.lt_of_lt_of_le (by decide) (recordPool_behind_start_codon t vs v hv).2, hwf v hv⟩
+  simp only [tvgLang, List.mem_map, Prod.mk.injEq]
+  constructor
+  · rintro ⟨h, hh, rfl, rfl⟩
+    exact ⟨_, h, (tvg_walk_iff t vs _ h hwf').mpr ⟨hh, rfl⟩, rfl, rfl⟩
+  · rintro ⟨w, h, hw, rfl, rfl⟩
+    obtain ⟨hh, rfl⟩ := (tvg_walk_iff t vs w h hwf').mp hw
+    exact ⟨h, hh, rfl, rfl⟩
+
+/-! non-vacuity of `tvg_language_eq` / `tvg_walk_iff` / `tvg_language_eq_of_spans` /
+`tvgLang_is_automaton`: the two-SNV transcript of `Props.C01` satisfies the hypotheses, and its
+language has four members -/
+example : ∀ v ∈ recordPool nvTx [nvB, nvA], 0 < v.start ∧ v.start < v.stop ∧ v.stop ≤ nvTx.seq.length := by
+  decide
+
+open MoPepGen.Graph in
+example : (allHaps nvTx [nvB, nvA]).map (applyHap nvTx.seq) =
+    ["ATGGCCAAATAG".toList, "ATGTCCAAATAG".toList, "ATGGCCACATAG".toList, "ATGTCCACATAG".toList] := by
+  decide
+
+open MoPepGen.Graph in
+/-- the automaton of the example accepts the sequence carrying both SNVs (through the theorem) -/
+example : ∃ h, Walk nvTx.seq (recordPool nvTx [nvB, nvA]) 0 false "ATGTCCACATAG".toList h :=
+  (tvg_language_eq nvTx [nvB, nvA] _ (by decide)).mpr (by decide)
+
+open MoPepGen.Graph in
+/-- frame 1 of the example: the automaton has a walk with the labels of both records -/
+example : ∃ w h, Walk nvTx.seq (recordPool nvTx [nvB, nvA]) 0 false w h ∧
+    "TGTCCACATAG".toList = w.drop 1 ∧ [0, 1] = hapIds h :=
+  (tvgLang_is_automaton nvTx [nvB, nvA] 1 _ _ (by decide)).mp (by decide)
+
+open MoPepGen.Graph in
+/-- … and no sequence outside the definition's language, e.g. one with an unsupplied change -/
+example : ¬ ∃ h, Walk nvTx.seq (recordPool nvTx [nvB, nvA]) 0 false "ATGTCCACATAA".toList h := by
+  rw [tvg_language_eq nvTx [nvB, nvA] _ (by decide)]; decide
+
 
 end MoPepGen.Props.C02
